@@ -18,6 +18,14 @@ Require Import HeadShift HeadDefs HeadRulesProofs.
    every atom base, every clause of the unfolding becomes a rule - the step has no failing branch (the assertion-free reading of ClauseToRule) *)
 Theorem C15_head_translation_step_total : forall (A : Type) (inbase : A -> bool) (F : hf A) (d : nat), exists rs, rules_at A inbase F d = Some rs.
 Proof. exact rules_at_total. Qed.
+Require Import FutTransform FutTransformProofs.
+(* the translation of a program (fragment of Model/FutTransform.v, compared with transformers.transform on every run) has exactly one way to fail: a rule
+   with an atom at a forbidden placement, which is the diagnostic case; the regenerated look-ahead test of the transformer never raises *)
+Theorem C15_translation_fails_only_on_a_forbidden_placement : forall (A : Type) (leA : A -> A -> bool) (P : list (frule A)),
+  transform_program A leA P = None <->
+  exists r, In r P /\ ~ (head_allowed A (fh A r) = true /\ forallb (lit_allowed A (shape_of A (fh A r))) (fb A r) = true).
+Proof. exact transform_program_fails_iff_forbidden_placement. Qed.
+Print Assumptions C15_translation_fails_only_on_a_forbidden_placement.
 Print Assumptions C15_head_translation_step_total.
 Print Assumptions C15_loop_never_raises.
 Print Assumptions C15_atom_decision_total.
